@@ -227,7 +227,7 @@ def run(module, cfg, *, spec_dir=SPEC, workers="auto", timeout=600, extra=(), en
         coverage=False, simulate=None, deadlock=None, dfid=None, want_printed=False, java_opts=()):
     """Run TLC on spec_dir/module.tla with spec_dir/cfg. Returns Result; raises TLCError on machinery failure."""
     meta = tempfile.mkdtemp(prefix="vf-tlc-")
-    cmd = ["java", "-XX:+UseParallelGC", *java_opts, "-cp", JAR_CP, "tlc2.TLC",
+    cmd = ["java", "-XX:+UseParallelGC", "-Djava.io.tmpdir=%s" % tempfile.gettempdir(), *java_opts, "-cp", JAR_CP, "tlc2.TLC",
            "-metadir", meta, "-noGenerateSpecTE", "-config", cfg, "-workers", str(workers)]
     if coverage:
         cmd += ["-coverage", "1"]
